@@ -49,3 +49,59 @@ Proof.
   - exact (neg_repaired_full current E).
   - exact (proj1 (neg_minint_refuted current E)).
 Qed.
+
+(* ---- full-strength statements for the code under test (all repairs present) -------------------------- *)
+From Verif Require Import Proofs.C06_Shift32.
+
+Lemma quo_current_full : quo_full_statement current.
+Proof. apply quo_repaired_full. reflexivity. Qed.
+Lemma rem_current_full : rem_full_statement current.
+Proof. apply rem_repaired_full. reflexivity. Qed.
+Lemma neg_current_full : neg_full_statement current.
+Proof. apply neg_repaired_full. reflexivity. Qed.
+
+Definition shc_full_statement (V : variant) : Prop :=
+  forall k s c x, is64 k = false -> in_range k x -> 0 <= c -> shc32 V k s c (Fin x) = Ret (Fin (go_shift k s x c)).
+Lemma shc_repaired_full : forall V, v_shrc V = true -> shc_full_statement V.
+Proof. intros V E k s c x H R Hc. apply shc32_correct; try assumption. right; right; right; left; exact E. Qed.
+Lemma shc_current_full : shc_full_statement current.
+Proof. apply shc_repaired_full. reflexivity. Qed.
+
+(* every binary operator of every kind of at most 32 bits, all in-range operands *)
+Lemma bin32_current_correct : forall k o x y, is64 k = false -> in_range k x -> in_range k y ->
+  bin32 current k o (Fin x) (Fin y) = embed (go_bin k o x y).
+Proof.
+  intros k o x y H Rx Ry. destruct o.
+  - apply add32_correct; assumption.
+  - apply sub32_correct; assumption.
+  - apply mul32_correct; assumption.
+  - apply quo_current_full; assumption.
+  - apply rem_current_full; assumption.
+  - apply and32_correct; assumption.
+  - apply or32_correct; assumption.
+  - apply xor32_correct; assumption.
+  - apply andnot32_correct; assumption.
+Qed.
+
+Lemma un32_current_correct : forall k u x, is64 k = false -> in_range k x ->
+  un32 current k u (Fin x) = Ret (Fin (go_un k u x)).
+Proof.
+  intros k u x H R. destruct u.
+  - apply neg_current_full; assumption.
+  - apply not32_correct; assumption.
+Qed.
+
+(* results stay in range, so the in-range hypothesis on operands is an invariant of expression evaluation *)
+Lemma go_bin_in_range : forall k o x y v, in_range k x -> in_range k y -> go_bin k o x y = GVal v -> in_range k v.
+Proof.
+  intros k o x y v Rx Ry E. destruct o; cbn [go_bin] in E;
+    try (injection E as <-; apply in_range_wrap).
+  - destruct (Z.eqb_spec y 0); [discriminate E | injection E as <-; apply in_range_wrap].
+  - destruct (Z.eqb_spec y 0); [discriminate E | injection E as <-; apply rem_in_range; assumption].
+  - injection E as <-. apply land_in_range; assumption.
+  - injection E as <-. apply lor_in_range; assumption.
+Qed.
+Lemma go_un_in_range : forall k u x, in_range k (go_un k u x).
+Proof. intros k u x; destruct u; apply in_range_wrap. Qed.
+Lemma go_shift_in_range : forall k s x n, in_range k x -> 0 <= n -> in_range k (go_shift k s x n).
+Proof. intros k s x n R Hn; destruct s; cbn [go_shift]; [apply in_range_wrap | apply shiftr_in_range; assumption]. Qed.
